@@ -481,6 +481,9 @@ func (f *fnCtx) call(x *ast.CallExpr) val {
 		if v, ok := f.convExt(x, tv.Type); ok { // uints.go: value-preserving integer conversions
 			return v
 		}
+		if v, ok := f.convByte(x, tv.Type); ok { // append.go: int64(<byte>) / int(<byte>)
+			return v
+		}
 		f.refuse(x, "unsupported conversion (only int(uint(e) >> k), string(<[]byte buffer>) and value-preserving conversions from unsigned types are accepted)")
 	}
 	switch fn := x.Fun.(type) {
@@ -501,7 +504,8 @@ func (f *fnCtx) call(x *ast.CallExpr) val {
 				}
 				return f.seq([]val{a}, ctype{k: tZ}, func(s []string) string { return "len " + s[0] })
 			case "cap":
-				if _, isVar := f.bufVar(x.Args[0]); isVar {
+				if o, isVar := f.bufVar(x.Args[0]); isVar {
+					f.capObserved(o, x, "cap") // append.go
 					a := f.expr(x.Args[0])
 					return f.seq([]val{a}, ctype{k: tZ}, func(s []string) string { return "buf_cap " + s[0] })
 				}
@@ -523,6 +527,9 @@ func (f *fnCtx) call(x *ast.CallExpr) val {
 	case *ast.SelectorExpr:
 		if id, ok := fn.X.(*ast.Ident); ok {
 			if pn, ok := f.p.info.Uses[id].(*types.PkgName); ok && pn.Imported().Path() == "strings" {
+				if fn.Sel.Name == "EqualFold" { // fold.go
+					return f.equalFold(x)
+				}
 				sf, ok := stringsFuncs[fn.Sel.Name]
 				if !ok || len(x.Args) != len(sf.args) {
 					f.refuse(x, "unsupported function strings.%s", fn.Sel.Name)
